@@ -117,6 +117,18 @@ func c14One(r map[string]interface{}) map[string]interface{} {
 	}
 	loc.SetControl(ctl)
 	ctx.SetLoc(loc)
+	if ns, ok := c14Dur(r["stale_ctx_ns"]); ok {
+		// the caller's context was last used with ANOTHER location whose timeout differs: the location the request is
+		// addressed to must still be the one that decides (every Location method points the context at itself first)
+		other, err := core.NewLocation(newCtx(), name+"-other", nil, nil)
+		if err == nil {
+			octl := core.DefaultControl()
+			octl.Verbosity = core.NOTHING
+			octl.JavascriptTimeout = core.Duration(ns)
+			other.SetControl(octl)
+			ctx.SetLoc(other)
+		}
+	}
 
 	var call func() map[string]interface{}
 	switch mode {
